@@ -1,8 +1,15 @@
 ---------------------------- MODULE MC_LockFile ----------------------------
-(* exhaustive model of LockFile: 2-3 participants on the same or on different terminals; the
+(* exhaustive model of LockFile for several layouts of users, processes and terminals; the
    state space is finite (counters cycle), so every interleaving - including every one with
-   the creation window - is covered                                                        *)
+   the creation window and every one in which a process holds the locks of two terminals at
+   once - is covered                                                                        *)
 EXTENDS LockFile
-BytesSame == [p \in Procs |-> 0]
-BytesMixed == [p \in Procs |-> IF p = "p1" THEN 0 ELSE 1]
+(* one user per process *)
+ProcSingle == [u \in Users |-> u]
+BytesSame == [u \in Users |-> 0]
+BytesMixed == [u \in Users |-> IF u = "u1" THEN 0 ELSE 1]
+(* process P runs u1 (terminal 0) and u2 (terminal 1); the others are processes of their own:
+   u3 on terminal 0, u4 on terminal 1                                                      *)
+ProcMulti == [u \in Users |-> IF u \in {"u1", "u2"} THEN "P" ELSE u]
+BytesMulti == [u \in Users |-> IF u \in {"u1", "u3"} THEN 0 ELSE 1]
 =============================================================================
